@@ -1,8 +1,9 @@
 SPECIFICATION Spec
 CONSTANTS
-  Langs = {"c", "cpp"}
+  Langs = {"c"}
   BaseSet = "families"
   MaxMut = 1
+  MinMut = 0
   MaxBoth = 1
   Star = FALSE
   HashBits = 1
